@@ -160,6 +160,8 @@ func seeds() []seed {
 		add("png-rich-MM", "png", d)
 		d, _ = gen.BuildPNG(nil, gen.EncodeTIFF(min, gen.CanonicalLayout(), II, gen.AllDirs), nil)
 		add("png-min-II", "png", d)
+		d, _ = gen.BuildPNGLate([]gen.Chunk{textChunk()}, gen.EncodeTIFF(min, gen.CanonicalLayout(), MM, gen.AllDirs), nil)
+		add("png-late-exif-MM", "png", d)
 	}
 	add("cr3-rich-II", "cr3", gen.EncodeBoxes(gen.CR3(gen.CR3FromRecord(rich, gen.CanonicalLayout(), II), 0)))
 	add("cr3-min-MM-64bit", "cr3", gen.EncodeBoxes(gen.CR3(gen.CR3FromRecord(min, gen.CanonicalLayout(), MM), 4)))
